@@ -48,6 +48,7 @@ func ruleC01(c *Ctx, r *Report) {
 	lastKeyLookupRule(c, r, "C01-R4")
 	operatorMapDescentRule(c, r, "C01-R4")
 	lookupFaithfulRule(c, r, "C01-R4")
+	lookupRecursionRule(c, r, p, c.lookupFunctions(p), "C01-R4")
 	c01FlagWiring(c, r, an)
 	c01Remote(c, r, p)
 }
@@ -1129,9 +1130,30 @@ func operatorMapDescentRule(c *Ctx, r *Report, rule string) {
 					continue
 				}
 				other := a
+				pathOnLeft := false
 				if peel(a) == ssa.Value(pathPrm) {
 					other = b
+					pathOnLeft = true
 				} else if peel(b) != ssa.Value(pathPrm) {
+					continue
+				}
+				// "shorter than the path", strictly: len(x) < len(path) (or len(path) > len(x)) holds
+				op := bo.Op
+				if !fc.Pol {
+					switch op {
+					case token.LSS:
+						op = token.GEQ
+					case token.GEQ:
+						op = token.LSS
+					case token.GTR:
+						op = token.LEQ
+					case token.LEQ:
+						op = token.GTR
+					}
+				}
+				strict := (!pathOnLeft && op == token.LSS) || (pathOnLeft && op == token.GTR) || op == token.NEQ
+				if !strict {
+					why = "the length comparison that guards the descent is not strict (it also holds when nothing was cut out of the path)"
 					continue
 				}
 				vacuous := false
@@ -1192,7 +1214,7 @@ func lookupFaithfulRule(c *Ctx, r *Report, rule string) {
 				tablePrm = prm
 			}
 		}
-		if pathPrm == nil || tablePrm == nil {
+		if pathPrm == nil {
 			continue
 		}
 		inLoop := map[*ssa.BasicBlock]bool{}
@@ -1207,7 +1229,22 @@ func lookupFaithfulRule(c *Ctx, r *Report, rule string) {
 				return
 			}
 			if b, isC := constBool(ret.Results[1]); isC && !b {
-				return // "not found"
+				// "not found": must not carry an entry that a lookup did find
+				for _, vs := range sourcesAt(ret.Results[0], ret.Block()) {
+					v := peel(vs.Val)
+					if ex, isEx := v.(*ssa.Extract); isEx && ex.Index == 0 {
+						if call, isCall := ex.Tuple.(*ssa.Call); isCall {
+							k := calleeKey(&call.Call)
+							g := c.staticPkgCallee(&call.Call)
+							if k == omMethod("Get") || (g != nil && g.Signature.Results().Len() == 2 && isBoolType(g.Signature.Results().At(1).Type())) {
+								n++
+								r.Bad(rule, fmt.Sprintf("%s:found-entry-dropped#%d", f.Name(), n), c.InstrPos(ret),
+									"the lookup hands the entry it read back as \"not found\": the walkers then treat a classified position (Exempt, FieldName, Namespace, a search operator) as unknown - what the tables keep is redacted, what they redact by class is treated as user data")
+							}
+						}
+					}
+				}
+				return
 			}
 			n++
 			construct := fmt.Sprintf("%s:found-answer#%d", f.Name(), n)
@@ -1227,14 +1264,36 @@ func lookupFaithfulRule(c *Ctx, r *Report, rule string) {
 					break
 				}
 				if isNilConst(v) {
+					// "found" with nothing: only behind the `current != nil` test after the loop
+					if fb, isC := constBool(ret.Results[1]); isC && fb {
+						problems = append(problems, "answers \"found\" with a nil entry")
+					}
 					continue
 				}
-				if v == ssa.Value(tablePrm) {
+				if tablePrm != nil && v == ssa.Value(tablePrm) {
 					kinds["the table itself (empty path)"] = true
 					continue
 				}
 				if ex, isEx := v.(*ssa.Extract); isEx && ex.Index == 0 {
 					if call, isCall := ex.Tuple.(*ssa.Call); isCall {
+						// the value of a lookup counts only where that lookup said "found"
+						if foundEx := extractOf(call, 1); foundEx != nil && vs.At != nil {
+							saidNo := false
+							fs := allFacts(vs.At)
+							if vs.To != nil {
+								if ifi, okI := vs.At.Instrs[len(vs.At.Instrs)-1].(*ssa.If); okI && vs.At.Succs[0] != vs.At.Succs[1] {
+									fs = append(fs, Fact{ifi.Cond, vs.At.Succs[0] == vs.To, ifi})
+								}
+							}
+							for _, ft := range fs {
+								if peel(ft.Cond) == ssa.Value(foundEx) && !ft.Pol {
+									saidNo = true
+								}
+							}
+							if saidNo {
+								problems = append(problems, "answers \"found\" with the value of a lookup that did not find")
+							}
+						}
 						k := calleeKey(&call.Call)
 						if k == omMethod("Get") {
 							kinds["member read from the table"] = true
@@ -1259,6 +1318,38 @@ func lookupFaithfulRule(c *Ctx, r *Report, rule string) {
 					}
 				}
 				if cst, isConst := v.(*ssa.Const); isConst {
+					// a classification constant is the table's entry where the entry read was just
+					// found equal to it (`if current == OperatorMap { ... return OperatorMap, true }`),
+					// here or at every call site of this helper
+					t := c.reconstructTables()
+					name := ""
+					if iv, okI := constInt(cst); okI {
+						name = t.EnumName[iv]
+					}
+					holds := func(b *ssa.BasicBlock) bool {
+						for _, a := range p.atomsAt(b) {
+							if a.Kind == "tbl" && a.Pol && a.Name == name && name != "" {
+								return true
+							}
+						}
+						return false
+					}
+					okConst := holds(ret.Block())
+					if !okConst {
+						cs := c.callersOf(f)
+						okConst = len(cs) > 0
+						for _, cl := range cs {
+							if !holds(cl.Block()) {
+								okConst = false
+							}
+						}
+					}
+					// (inside the path loop only the OperatorMap cut ends a lookup early: a FieldName /
+					// Exempt leaf met before the path is exhausted is "not found", whatever it equals)
+					if okConst && (name == "OperatorMap" || !inLoop[ret.Block()]) {
+						kinds["the classification the entry was just found to be ("+name+")"] = true
+						continue
+					}
 					problems = append(problems, fmt.Sprintf("answers with the constant %s instead of the table's entry", cst.String()))
 					continue
 				}
